@@ -140,6 +140,22 @@ func (i *interpreter) mapIter(m *smap) iter {
 			snap = append(snap, e)
 		}
 	}
+	if i.mapOrderFork && len(snap) > 1 && i.cfg.Params["maporder_all"] != 1 {
+		// default: every rotation in both directions (2n orders): every entry is visited
+		// first and last at least once. Params["maporder_all"]=1 explores all n! orders.
+		n := len(snap)
+		k := i.choose(2*n, "maporder")
+		i.internalChoices++
+		perm := make([]*mapEntry, 0, n)
+		for j := 0; j < n; j++ {
+			if k < n {
+				perm = append(perm, snap[(k+j)%n])
+			} else {
+				perm = append(perm, snap[((k-n)-j+2*n)%n])
+			}
+		}
+		return &mapIter{m: m, snap: perm}
+	}
 	if i.mapOrderFork && len(snap) > 1 {
 		if len(snap) > 5 {
 			unsupported("map iteration order fork over %d entries", len(snap))
